@@ -33,15 +33,16 @@ StepAt(k) == [pre |-> Tr[k - 1].st, act |-> Tr[k].act, res |-> Tr[k].res, post |
               xfers |-> Tr[k].xfers, hooks |-> Tr[k].hooks, extra |-> Tr[k].extra]
 
 StateFields == {"now", "params", "aseq", "auctions", "allowed", "bids", "bseq", "vqs", "lastMatched",
-                "bal", "fp", "supply", "switchOn"}
+                "bal", "fp", "supply", "switchOn", "nl"}
 
 DriftOf(exp, step) ==
   {f \in StateFields : exp.st[f] # step.post[f]}
   \cup (IF exp.ok # step.res.ok THEN {"res.ok"} ELSE {})
   \cup (IF exp.ok /\ step.res.ok /\ exp.xfers # step.xfers THEN {"xfers"} ELSE {})
+  \cup (IF ((exp.ok /\ step.res.ok) \/ exp.err = "hook") /\ exp.hooks # step.hooks THEN {"hooks"} ELSE {})
 
 InitDrift(rec) ==
-  LET s0 == InitState(rec.act.bal0, rec.act.params, FALSE) IN
+  LET s0 == [InitState(rec.act.bal0, rec.act.params, FALSE) EXCEPT !.nl = IF "listeners" \in DOMAIN rec.act THEN rec.act.listeners ELSE 0] IN
   {f \in StateFields : s0[f] # rec.st[f]}
 
 (* C14 (2-safety, by self-composition): the harness executes every behaviour several times *)
